@@ -25,8 +25,42 @@ def lifespan_scenarios(rng, n, starve=True):
                 op.pop('n_splits', None)
         if starve and sc['pool']['start_method'] == 'fork' and rng.random() < .6:
             sc['rules'] = [{'role': 'unexpected_death_handler', 'op': 'array.get', 'obj': 'workers_dead', 'k': rng.choice([20, 60, 120]), 'p': .5}]
+        elif starve and rng.random() < .5:
+            # the thread that restarts workers is held up right when it starts the replacement: the new instance runs (and the death
+            # watch looks at the slot) before the restart is finished
+            sc['rules'] = [{'role': 'restart_handler', 'op': 'start', 'obj': None, 'sleep': rng.choice([0.05, 0.15, 0.3]), 'p': .7}]
         scs.append(sc)
     return scs
+
+
+def ka_lifespan_histories(rng, n):
+    """keep-alive pools: several calls with the SAME lifespan and chunk size but other functions / sizes; the budget of L tasks belongs
+    to the worker instance, not to the call"""
+    scs = []
+    for _ in range(n):
+        nj = rng.choice([1, 2, 3])
+        L = rng.choice([2, 3, 4, 6])
+        c = rng.choice([1, 1, 2])
+        ops = []
+        for k in range(rng.randint(2, 4)):
+            ops.append({'op': rng.choice(['map', 'map_unordered', 'imap', 'imap_unordered']), 'n': rng.randint(1, max(1, (L - 1) * nj)), 'chunk_size': c,
+                        'elem': 'scalar', 'worker_lifespan': L, 'dur': {'kind': 'hash', 'salt': rng.randint(0, 99), 'unit': 0.005}})
+        ops.append({'op': 'stop_and_join'})
+        scs.append({'seed': rng.randint(0, 10 ** 6), 'pool': {'n_jobs': nj, 'start_method': rng.choice(['fork', 'threading']), 'keep_alive': True},
+                    'ops': ops, 'same_func': rng.random() < .3, 'relax_shape': True, 'L': L, 'c': c})
+    return scs
+
+
+def ka_lifespan_judge(chk, sc, o):
+    if o.get('harness_error') or o.get('stuck'):
+        return
+    import collections
+    per = collections.Counter(c[3] for c in o.get('calls', []) if c[1] == 'task')
+    bound = sc['L'] + sc['c'] - 1
+    over = {str(t): k for t, k in per.items() if k > bound}
+    if over:
+        chk.violation('lifespan_bound_over_history', {'scenario': sc}, {'tasks_per_instance': over, 'bound': bound},
+                      'every worker instance executes at most L + c - 1 tasks in its whole life', input_class='ka_lifespan')
 
 
 def run(chk):
@@ -41,7 +75,7 @@ def run(chk):
                         {'C12', 'C01', 'C02', 'C03'},
                         nontrivial=lambda sc, o: len({c[3] for c in o.get('calls', [])}) > sc['pool']['n_jobs'],
                         dist=lambda sc, o: {'L': sc['ops'][0]['worker_lifespan'], 'start': sc['pool']['start_method'],
-                                            'starved_death_watch': bool(sc.get('rules')),
+                                            'schedule': (sc.get('rules') or [{}])[0].get('role', 'plain'),
                                             'instances': min(len({c[3] for c in o.get('calls', [])}), 12)})
     # a routine restart must never surface as a failure
     for sc, o in zip(scs, obs):
@@ -50,6 +84,11 @@ def run(chk):
                 chk.violation('restart_not_death', {'scenario': sc}, {'op': opi, 'raised': oo.get('exc')},
                               'a call in which no worker died and no user function raised must not raise', input_class='restart_not_death')
     proto_correspondence(chk, 'protocol traces with restarts vs Mpire.Proto.step', scs, obs)
+    ka = ka_lifespan_histories(rng, 150 if chk.tier == 'quick' else 2500)
+    kobs = run_scenarios(chk, 'keep-alive histories with one lifespan across calls (tasks per instance over its whole life)', ka, {'C12', 'C01', 'C02'},
+                         nontrivial=lambda sc, o: len(sc['ops']) >= 3, dist=lambda sc, o: {'L': sc['L'], 'c': sc['c'], 'calls': len(sc['ops']) - 1, 'same_func': sc['same_func']})
+    for sc, o in zip(ka, kobs):
+        ka_lifespan_judge(chk, sc, o)
 
     def search():
         extra = lifespan_scenarios(random.Random(chk.seed * 17 + 3), 800)
@@ -58,4 +97,7 @@ def run(chk):
             for opi, oo in enumerate(o.get('ops', [])):
                 if oo.get('outcome') == 'raise':
                     chk.violation('restart_not_death', {'scenario': sc}, {'op': opi, 'raised': oo.get('exc')}, 'no spurious failure', input_class='restart_not_death')
+        ka2 = ka_lifespan_histories(random.Random(chk.seed * 19 + 1), 500)
+        for sc, o in zip(ka2, run_scenarios(chk, 'search', ka2, {'C12'})):
+            ka_lifespan_judge(chk, sc, o)
     return search
